@@ -204,7 +204,7 @@ fn main() {
                     if v == "a" {
                         distinct_accept.insert(format!("{p}:{}", c[p]["val"]));
                     }
-                    st.check_text(p, &s, v, &c[p]["val"], c);
+                    st.check_text(p, &s, v, &c[p]["val"], line);
                 }
             }
             "FMT" => {
@@ -225,29 +225,29 @@ fn main() {
                     (got, pj, back)
                 });
                 match r {
-                    Err(pn) => st.mm("format-panic".into(), c, json!({"panic": pn})),
+                    Err(pn) => st.mm("format-panic".into(), line, json!({"panic": pn})),
                     Ok((got, pj, back)) => {
                         for (how, g) in got {
                             st.rep.checks += 1;
                             if g != want {
-                                st.mm("ts-format-differs".into(), c, json!({"how": how, "want": want, "got": g}));
+                                st.mm("ts-format-differs".into(), line, json!({"how": how, "want": want, "got": g}));
                             }
                         }
                         st.rep.checks += 2;
                         if pj != c["parts"] {
-                            st.mm("ts-to_parts-differs".into(), c, json!({"want": c["parts"], "got": pj}));
+                            st.mm("ts-to_parts-differs".into(), line, json!({"want": c["parts"], "got": pj}));
                         }
                         if back != Some(ts) {
-                            st.mm("ts-from_parts(to_parts)-differs".into(), c, json!({"got": back.map(ts_val)}));
+                            st.mm("ts-from_parts(to_parts)-differs".into(), line, json!({"got": back.map(ts_val)}));
                         }
                     }
                 }
                 // the round trip: parsing the predicted text gives the (truncated) instant
-                st.check_text("ts", &want, "a", &c["back"], c);
+                st.check_text("ts", &want, "a", &c["back"], line);
                 st.rep.checks += 1;
                 let dc = catch(|| emit::Value::from_any(&ts).cast::<Timestamp>() == Some(ts) && emit::Value::from_any(&ts).by_ref().cast::<Timestamp>() == Some(ts));
                 if dc != Ok(true) {
-                    st.mm("ts-value-roundtrip".into(), c, json!({"got": format!("{dc:?}")}));
+                    st.mm("ts-value-roundtrip".into(), line, json!({"got": format!("{dc:?}")}));
                 }
             }
             "FLAG" => {
@@ -256,9 +256,9 @@ fn main() {
                 st.rep.checks += 2;
                 let r = catch(|| (TraceFlags::from_u8(b).to_string(), String::from_utf8(TraceFlags::from_u8(b).to_hex().to_vec()).unwrap()));
                 if r != Ok((want.clone(), want.clone())) {
-                    st.mm("flags-format-differs".into(), c, json!({"got": format!("{r:?}")}));
+                    st.mm("flags-format-differs".into(), line, json!({"got": format!("{r:?}")}));
                 }
-                st.check_text("fl", &want, "a", &json!(b), c);
+                st.check_text("fl", &want, "a", &json!(b), line);
             }
             "TPFMT" => {
                 let want = text_of(&c["text"]);
@@ -273,33 +273,33 @@ fn main() {
                     (tp.to_string(), want.parse::<Traceparent>().ok() == Some(tp))
                 });
                 if r != Ok((want.clone(), true)) {
-                    st.mm("traceparent-format-differs".into(), c, json!({"got": format!("{r:?}")}));
+                    st.mm("traceparent-format-differs".into(), line, json!({"got": format!("{r:?}")}));
                 }
-                st.check_text("tp", &want, "a", &json!({"tid": c["tid"], "sid": c["sid"], "fl": fl}), c);
+                st.check_text("tp", &want, "a", &json!({"tid": c["tid"], "sid": c["sid"], "fl": fl}), line);
             }
             "LVLFMT" => {
                 let want = text_of(&c["text"]);
                 let l = [Level::Debug, Level::Info, Level::Warn, Level::Error][c["val"].as_u64().unwrap() as usize - 1];
                 st.rep.checks += 2;
                 if l.to_string() != want || emit::Value::from_any(&l).to_string() != want {
-                    st.mm("level-format-differs".into(), c, json!({"got": l.to_string()}));
+                    st.mm("level-format-differs".into(), line, json!({"got": l.to_string()}));
                 }
                 if emit::Value::from_any(&l).cast::<Level>() != Some(l) {
-                    st.mm("level-value-roundtrip".into(), c, json!({}));
+                    st.mm("level-value-roundtrip".into(), line, json!({}));
                 }
-                st.check_text("lvl", &want, "a", &c["val"], c);
+                st.check_text("lvl", &want, "a", &c["val"], line);
             }
             "KINDFMT" => {
                 let want = text_of(&c["text"]);
                 let k = [Kind::Span, Kind::Metric][c["val"].as_u64().unwrap() as usize - 1];
                 st.rep.checks += 2;
                 if k.to_string() != want || emit::Value::from_any(&k).to_string() != want {
-                    st.mm("kind-format-differs".into(), c, json!({"got": k.to_string()}));
+                    st.mm("kind-format-differs".into(), line, json!({"got": k.to_string()}));
                 }
                 if emit::Value::from_any(&k).cast::<Kind>() != Some(k) {
-                    st.mm("kind-value-roundtrip".into(), c, json!({}));
+                    st.mm("kind-value-roundtrip".into(), line, json!({}));
                 }
-                st.check_text("kind", &want, "a", &c["val"], c);
+                st.check_text("kind", &want, "a", &c["val"], line);
             }
             _ => tool_error("unknown line kind"),
         }
